@@ -475,6 +475,9 @@ def run(sc: Dict[str, Any], cache: Optional[Dict[str, Any]] = None) -> Dict[str,
     m, recs, arch, probe = B["m"], B["recs"], B["arch"], B["probe"]
     rng = random.Random(sc.get("seed", 0) * 7919 + 13)
     m.eval()                            # every history starts in eval mode (a cached model may have been left in training mode)
+    if not fresh_model:                 # ... and without autograd history of the previous scenario in its buffers / attributes:
+        with torch.no_grad():           # one eval forward under no_grad through the public API (theta is then an old one-hot:
+            m(torch.rand((1,) + input_shape(arch)))     # nothing is claimed about it, see ThetaState "soft")
     S = apply_selection(sc, B, rng)
     want = S["want"]
     sh = shapes(arch)
